@@ -834,6 +834,9 @@ def parse_range_header(
             if begin < last_end or last_end < 0:
                 return None
             if end_str:
+                if end_str.startswith("-"):
+                    # "0--0": a last-byte-pos is digits only
+                    return None
                 try:
                     end = _plain_int(end_str) + 1
                 except ValueError:
